@@ -1633,6 +1633,15 @@ def _x_det(rng, kind, force):
             'desc': 'mpc.np_det(SecFld(101).array([[1,2],[3,5]]))', 'key': 'x_det'}
 
 
+@directed('x_zero_size_mix32_64bit', 'int')
+def _x_zero_mix(rng, kind, force):
+    a = np.zeros((0, 2), dtype=object)
+    return {'inputs': {'a': a}, 'call': lambda mpc, S, X: X['a'] + X['a'], 'ref': lambda P: a,
+            # with option --mix32-64bit arrays are dealt through the list-based random_split: `s[0]` of an empty list
+            'finding_key_crash': 'np_zero_size_mix32_64bit', 'case': {'mix32_64bit': True},
+            'desc': 'mpc.input(SecInt(24).array(np.zeros((0, 2)))) with option --mix32-64bit', 'key': 'x_zero_mix'}
+
+
 @directed('x_np_unit_vector_secfld', 'f101')
 def _x_uv(rng, kind, force):
     e = np.zeros(6, dtype=object)
